@@ -9,22 +9,28 @@ import pipeline
 import talgen
 
 PID = 'C12'
-PROOF_MODULES = ['ChamProofs.Props.C12']
+PROOF_MODULES = ['ChamProofs.Props.C12', 'ChamProofs.Props.C13Exact']
 THEOREMS = ['ChamVerif.keeps_evalT', 'ChamVerif.C12_token_set_when_value_raises', 'ChamVerif.C12_record',
-            'ChamVerif.C12_base_exception_untouched', 'ChamVerif.C12_macro_records_then_reraises', 'ChamVerif.C12_records_order']
+            'ChamVerif.C12_base_exception_untouched', 'ChamVerif.C12_macro_records_then_reraises', 'ChamVerif.C12_records_order',
+            'ChamVerif.C12_filler_records_failing_expression', 'ChamVerif.C12_handled_records_dropped']
 LEVEL_TEXT = ('Proved in Lean: the TALES evaluator (python pipes, nested prefixes, string parts — all four mutually recursive functions) never '
               'clears __token (keeps_evalT, induction on the fuel over the mutual block), hence whenever evaluating an expression raises, '
               '__token holds an expression position (C12_token_set_when_value_raises); for an exception in the Exception hierarchy the record '
               'attached to the message is exactly the source slice at that position with its line and column (C12_record), and an exception '
-              'outside the hierarchy gets no record and is not re-typed (C12_base_exception_untouched, the behaviour after the D-12a fix). '
+              'outside the hierarchy gets no record and is not re-typed (C12_base_exception_untouched, the behaviour after the D-12a fix); a '
+              'failure inside a slot filler is recorded at the filler\'s own expression and the macro adds no record of its own '
+              '(C12_filler_records_failing_expression, after the D-12d fix); the fallback of tal:on-error starts with at most the records the '
+              'list held when the element was entered (C12_handled_records_dropped, whole-interpreter, after the D-12b fix). '
               'Class preservation, original arguments, RenderError mixin, call-site chains over macros and load: and the absence of partial '
               'output are judged on the implementation by the oracle; the interpreter by end-to-end correspondence of error records.')
 LEVEL_NOTE = ('Trusted: Lean kernel; the interpreter model; ExceptionFormatter\'s text layout is parsed by the harness (" - Expression:", '
               '" - Location:"). Known findings: D-12c (an exception whose class is exactly Exception cannot get the RenderError mixin: '
-              'no location in its message), D-12b (records of failures handled by tal:on-error inside a macro stay in the error list).')
+              'no location in its message). D-12b (records of handled failures stayed in the error list) and D-12d (a failure inside a slot '
+              'filler named an expression of the macro) were repaired in /repo.')
 RULE = ('skeleton templates (multi-line, several expressions at statement and interpolation sites, inline macros, use-macro and load: '
         'chains over files) x every reached expression occurrence made to raise each of 8 exception classes (builtin, custom with extra '
-        'constructor arguments, overriding __str__, KeyboardInterrupt, SystemExit, RecursionError). Non-trivial iff the raising occurrence is '
+        'constructor arguments, overriding __str__, KeyboardInterrupt, SystemExit, RecursionError); failures inside slot fillers of external '
+        'and in-template macros; one or two failures handled by tal:on-error across a macro boundary followed by a later failure. Non-trivial iff the raising occurrence is '
         'not the first expression of the template, or sits inside a macro / load: chain.')
 TRUSTED = []
 ASSUMPTIONS = []
@@ -166,6 +172,105 @@ def run_chain(d, exc):
     return {'out': True}
 
 
+# ---- failures inside slot fillers, and failures after a handled failure
+def _rec(src, text, nth=0):
+    off = -1
+    for _ in range(nth + 1):
+        off = src.index(text, off + 1)
+    return [text, 1 + src[:off].count('\n'), off - (src[:off].rfind('\n') + 1)]
+
+
+def filler_case(rng):
+    """the failing expression stands in a metal:fill-slot body: it is the one to be named, followed by the use-macro call site"""
+    exc = rng.choice(['KeyError', 'Custom', 'Shouty', 'TypeError', 'ZeroDivisionError'])
+    mpre = rng.choice(['', '${ok1}', '<i tal:content="ok1"/>\n  ', '<i tal:define="q ok1">${q}</i>'])
+    fpre = rng.choice(['', '${ok1} ', '\n   <i tal:content="ok1"/>', 'é '])
+    inner = rng.choice(['${boom(\'%s\')}', '<em tal:content="boom(\'%s\')"/>', '<em tal:repeat="i [1, 2]">${i}${boom(\'%s\')}</em>']) % exc
+    lib = '<html>\n<div metal:define-macro="m">%s<b metal:define-slot="s">d</b> ${ok1}</div>\n</html>' % mpre
+    inline = rng.random() < 0.4
+    use = "template.macros['m']" if inline else "lib.macros['m']"
+    head = '<div metal:define-macro="m">%s<b metal:define-slot="s">d</b> ${ok1}</div>\n' % mpre if inline else ''
+    main = '<main>\n%s <x metal:use-macro="%s"><u metal:fill-slot="s">%s%s</u></x>\n</main>' % (head, use, fpre, inner)
+    return {'lib': lib, 'main': main, 'exc': [exc], 'expected': [_rec(main, "boom('%s')" % exc), _rec(main, use)],
+            'kind': 'filler/' + ('inline' if inline else 'external')}
+
+
+def handled_case(rng):
+    """a failure inside a macro is handled by tal:on-error; a later, unrelated failure must be reported alone"""
+    e1 = rng.choice(['KeyError', 'Custom', 'TypeError', 'ZeroDivisionError'])
+    e2 = rng.choice(['KeyError', 'Shouty', 'TypeError', 'RuntimeError'])
+    lib = '<html>\n<div metal:define-macro="m"><b>${ok1}${boom(\'%s\')}</b></div>\n<div metal:define-macro="n"><i>${boom(\'%s\')}</i></div></html>' % (e1, e2)
+    later_in_macro = rng.random() < 0.5
+    later = '<y metal:use-macro="lib.macros[\'n\']"/>' if later_in_macro else "<i>${boom('%s')}</i>" % e2
+    times = rng.choice([1, 1, 2])
+    handled = ''.join('<p tal:on-error="string:E%d"><x metal:use-macro="lib.macros[\'m\']"/></p>\n' % i for i in range(times))
+    main = '<main>\n%s %s</main>' % (handled, later)
+    expected = [_rec(lib, "boom('%s')" % e2, 1 if e1 == e2 else 0), _rec(main, "lib.macros['n']")] if later_in_macro else [_rec(main, "boom('%s')" % e2)]
+    return {'lib': lib, 'main': main, 'exc': [e1] * times + [e2], 'expected': expected, 'kind': 'after-handled/' + ('macro' if later_in_macro else 'plain')}
+
+
+def run_lib(case):
+    from chameleon import PageTemplate
+    from chameleon.exc import RenderError
+    made = []
+
+    def boom(name):
+        e = EXC[name](name)
+        made.append(e)
+        raise e
+    try:
+        out = PageTemplate(case['main'])(boom=boom, ok1='fine', lib=PageTemplate(case['lib']))
+        return {'out': out}
+    except Exception as e:
+        orig = made[-1] if made else None
+        return {'raised': type(e).__name__, 'isinstance_original': orig is not None and isinstance(e, type(orig)),
+                'is_render_error': isinstance(e, RenderError), 'records': pipeline.parse_errors(str(e)), 'raised_calls': [type(x).__name__ for x in made]}
+
+
+def judge_lib(case, r):
+    if 'out' in r:
+        return 'no exception came out of render() although an expression raised'
+    if r['raised'] != case['exc'][-1] or not r['isinstance_original'] or not r['is_render_error']:
+        return 'the exception does not keep its class / RenderError mixin'
+    if r['records'] != case['expected']:
+        return ('the message does not name exactly the failing expression (then the enclosing call sites): ' + case['kind'])
+    return None
+
+
+def recursion_case(rng, d):
+    """a template that includes itself (tree rendering) fails `depth` levels down: the call site appears once per level"""
+    depth = rng.randint(1, 4)
+    exc = rng.choice(['KeyError', 'Custom', 'TypeError'])
+    pad = ' ' * rng.randint(0, 6)
+    tree = ('<div>\n%s<b>${node[\'label\']()}</b>\n'
+            '  <p tal:repeat="child node[\'children\']"><x tal:define="node child" metal:use-macro="load: tree.pt"/></p>\n</div>' % pad)
+    main = '<main>\n\n  <y metal:use-macro="load: tree.pt"/></main>'
+    for name, body in (('tree.pt', tree), ('main.pt', main)):
+        with open(os.path.join(d, name), 'w') as f:
+            f.write(body)
+    expected = [_rec(tree, "node['label']()")] + [_rec(tree, 'load: tree.pt')] * depth + [_rec(main, 'load: tree.pt')]
+    return depth, exc, expected
+
+
+def run_recursion(d, depth, exc):
+    from chameleon import PageTemplateFile
+    from chameleon.exc import RenderError
+
+    def ok():
+        return 'fine'
+
+    def boom():
+        raise EXC[exc](exc)
+    node = {'label': boom, 'children': []}
+    for _ in range(depth):
+        node = {'label': ok, 'children': [node]}
+    try:
+        PageTemplateFile(os.path.join(d, 'main.pt'))(node=node)
+    except Exception as e:
+        return {'raised': type(e).__name__, 'is_render_error': isinstance(e, RenderError), 'records': pipeline.parse_errors(str(e))}
+    return {'out': True}
+
+
 SRC_RE = re.compile(r' - Expression: "(.*?)"\n - Filename:   .*?\n - Location:   \(line \d+: col \d+\)\n - Source:     (.*)\n               ( *\^+)')
 
 
@@ -217,6 +322,31 @@ def oracle(ctx):
                               {'files': 'main.pt -> mid.pt -> lib.pt', 'exception': exc}, expected=expected, actual=r)
     finally:
         shutil.rmtree(d, ignore_errors=True)
+    d = tempfile.mkdtemp(prefix='c12_')
+    try:
+        for _ in range(ctx.budget(60, 1500)):
+            depth, exc, expected = recursion_case(ctx.rng, d)
+            r = run_recursion(d, depth, exc)
+            ctx.count('evaluations')
+            nt += 1
+            if r.get('records') != expected or not r.get('is_render_error') or r.get('raised') != exc:
+                ctx.violation('call-site chain of a template that includes itself: one record per level, innermost first',
+                              {'files': 'main.pt -> tree.pt -> tree.pt ...', 'depth': depth, 'exception': exc,
+                               'tree': open(os.path.join(d, 'tree.pt')).read()}, expected=expected, actual=r)
+    finally:
+        shutil.rmtree(d, ignore_errors=True)
+    kinds = {}
+    for _ in range(ctx.budget(400, 8000)):
+        case = filler_case(ctx.rng) if ctx.rng.random() < 0.5 else handled_case(ctx.rng)
+        r = run_lib(case)
+        ctx.count('evaluations')
+        nt += 1
+        kinds[case['kind']] = kinds.get(case['kind'], 0) + 1
+        j = judge_lib(case, r)
+        if j:
+            ctx.violation(j, {'main': case['main'], 'lib': case['lib'], 'exceptions': case['exc'], 'kind': case['kind']},
+                          expected=case['expected'], actual=r)
+    ctx.cov['filler_and_handled_kinds'] = kinds
     ctx.cov['exception_histogram'] = hist
     ctx.counters['nontrivial'] = nt
     c0 = build(ctx.rng)
@@ -243,6 +373,13 @@ def reproduce_finding(ctx, f):
 def replay(ctx, case):
     v = case.get('violation', case)
     c = v['input']
+    if 'main' in c and 'lib' in c:
+        cs = {'main': c['main'], 'lib': c['lib'], 'exc': c['exceptions'], 'expected': v.get('expected'), 'kind': c.get('kind', '')}
+        r = run_lib(cs)
+        j = judge_lib(cs, r)
+        if j:
+            ctx.violation(j, c, expected=v.get('expected'), actual=r)
+        return {'result': r, 'judgement': j}
     if 'src' in c and 'exception' in c:
         cs = {'src': c['src'], 'exc': c['exception'], 'record': v.get('expected'), 'label': c.get('site'), 'nontrivial': True}
         r = run(cs)
